@@ -231,3 +231,29 @@ Example C09_example_fixed_finding14_schedule :
            EStC CsComplete FAband FValue false; EStC CsNegotiate FAband FComplete true;
            EStC CsDropNeg FComplete FComplete false; EDealloc].
 Proof. vm_compute. repeat split. Qed.
+
+(* ---- faults during spawn (SpawnFault, sequential) --------------------------------------------- *)
+(* for spawn_detached and spawn_future and a fault at any one of their fault points (allocation,
+   nest of the future, nest of the sender, connect) or none: the heap block allocated is
+   deallocated, every scope reference is given back, the exception leaves the call exactly when
+   a fault was injected, nothing was started if it threw, and the clean run starts and completes
+   exactly one operation *)
+Theorem C09_spawn_fault_clean : forall (g : SpawnFault.fn) (f : option SpawnFault.stage),
+  SpawnFaultProofs.fault_valid g f ->
+  let s := SpawnFault.run false g f in
+  SpawnFault.allocs s = SpawnFault.deallocs s /\ SpawnFault.refs s = 0 /\
+  (SpawnFault.threw s = true <-> f <> None) /\
+  (SpawnFault.threw s = true -> SpawnFault.started s = 0) /\
+  (SpawnFault.threw s = false ->
+     SpawnFault.started s = 1 /\ SpawnFault.completed s = 1 /\ SpawnFault.allocs s = 1) /\
+  SpawnFault.allocs s = (match f with Some SpawnFault.SAlloc => 0 | _ => 1 end).
+Proof. exact SpawnFaultProofs.spawn_fault_clean. Qed.
+Print Assumptions C09_spawn_fault_clean.
+
+(* the variant of spawn_detached whose deallocating guard is armed only after nest() (the
+   seeded defect C09-seed2) leaks the block when nest throws *)
+Theorem C09_spawn_fault_late_guard_refuted :
+  let s := SpawnFault.run true SpawnFault.Detached (Some SpawnFault.SNestOp) in
+  SpawnFault.threw s = true /\ SpawnFault.allocs s = 1 /\ SpawnFault.deallocs s = 0.
+Proof. exact SpawnFaultProofs.spawn_fault_late_guard_refuted. Qed.
+Print Assumptions C09_spawn_fault_late_guard_refuted.
